@@ -15,6 +15,14 @@ from ..refmodel import Store, spec_of, normalize_unordered, diff
 
 PROP = 'C01'
 
+MANIFEST = dict(
+    category='exploration',
+    design_ref='DESIGN.md §3 C01, §2.2-2.4',
+    technique='deviation-bounded exhaustive enumeration of WN-LMF documents (features, shapes x BATCH_SIZE, payloads, extensions) on the real add/query path vs a reference model',
+    text='Abstract documents for LMF 1.0-1.3 are derived from a maximal and a minimal document by every single optional-feature deviation (thorough: every pair), every repeatable slot at 0..4 items crossed with BATCH_SIZE 1/2/3/1000, every string slot x every payload of a nasty-character alphabet, multi-lexicon files and every documented extension pattern; each is written by an independent serializer, added with wn.add and the complete public-API transcript (restricted and default mode) is compared with the transcript the reference model derives from the document. Exhaustive within the stated deviation bound.',
+    note='Own XML writer; ids limited to XML-name-like strings; <=4 items per list; <=2 simultaneous deviations; tie-ranked orders (extension senses/forms/members) compared as sets.',
+)
+
 
 def _key_of(d):
     path = d.split(': ', 1)[0]
